@@ -102,6 +102,14 @@ m("reserve-plain-add", RAW, "    pub fn reserve(&mut self, additional: usize) {\
 m("alloc-fast-path-in-push", AV, "    pub fn push<V: AnyValue>(&mut self, value: V) {\n        self.raw.type_check(&value);",
   "    pub fn push<V: AnyValue>(&mut self, value: V) {\n        #[cfg(feature=\"alloc\")]\n        { if self.len() == usize::MAX { return; } }\n        self.raw.type_check(&value);", ["C19"], "body-differs")
 
+# ---------------------------------------------------------------- rows added after the seeded rounds
+m("vec-drop-skips-small", RAW, "    fn drop(&mut self) {\n        self.clear();\n    }", "    fn drop(&mut self) {\n        if self.capacity() != 0 { self.clear(); }\n    }", ["C03"], "vec-drop")
+m("push-reserve-after-write", RAW, "        self.reserve_one();\n\n        // Compile time type optimization\n        if !Unknown::is::<V::Type>(){\n            let element = self.mem.as_mut_ptr().cast::<V::Type>().add(self.len) as *mut u8;",
+  "        // Compile time type optimization\n        if !Unknown::is::<V::Type>(){\n            self.reserve_one();\n            let element = self.mem.as_mut_ptr().cast::<V::Type>().add(self.len) as *mut u8;", ["C01"], None)
+m("lazyclone-chain-clones-twice", "src/any_value/lazy_clone.rs", "    unsafe fn clone_into(&self, out: *mut u8) {\n        self.value.clone_into(out);\n    }", "    unsafe fn clone_into(&self, out: *mut u8) {\n        self.value.clone_into(out);\n        self.value.clone_into(out);\n    }", ["C09"], "clone_into:LazyClone")
+m("element-clone-into-wrong-count", "src/element.rs", "        (clone_fn)(self.as_bytes().as_ptr(), out, 1);", "        (clone_fn)(self.as_bytes().as_ptr(), out, self.size());", ["C09"], "clone_into:ElementPointer")
+m("tempvalue-as-bytes-mut-other-slot", "src/ops/temp.rs", "        self.op.bytes() as *mut u8\n", "        (self.op.bytes() as *mut u8).wrapping_add(self.bytes_len())\n", ["C13"], "bytes-ptr-agree")
+
 # ================================================================= benign edits (every check stays silent)
 ALL = ["C01", "C02", "C03", "C04", "C05", "C06", "C07", "C08", "C09", "C10", "C11", "C12", "C13", "C14", "C17", "C18", "C19"]
 b("get-early-return", AV, "        if index < self.len(){\n            Some(unsafe{ self.get_unchecked(index) })\n        } else {\n            None\n        }\n    }\n\n    #[inline]\n    pub unsafe fn get_unchecked(&self",
